@@ -108,6 +108,35 @@ def run(ctx, rep):
                    "close() sets the flag and then calls _cleanup without _anyway: _cleanup returns early and nothing is released",
                    ctx.loc(call), kind="site")
 
+    # closing a connection whose peer has already gone is silent: the handler for that case does not go back to the dead transport
+    conn_cls = ctx.cls(K.CONN)
+
+    def touches_channel(mname, seen=()):
+        m_ = ctx.repo.method(conn_cls, mname)
+        if m_ is None or mname in seen:
+            return False
+        if any(K.self_attr(x, "_channel") for x in A.walk(m_.node)):
+            return True
+        return any(touches_channel(d_[5:], seen + (mname,)) for c_ in A.calls(m_.node)
+                   for d_ in [A.call_name(c_) or ""] if d_.startswith("self.") and d_.count(".") == 1)
+    back = []
+    n_h = 0
+    for h in A.walk(f.node):
+        if isinstance(h, ast.ExceptHandler) and h.type is not None and "EOFError" in A.src(h.type):
+            n_h += 1
+            for st in h.body:
+                for c_ in A.calls(st):
+                    d_ = A.call_name(c_) or ""
+                    if d_.startswith("self._channel.") or (d_.startswith("self.") and d_.count(".") == 1 and
+                                                           d_[5:] not in ("_cleanup", "close") and touches_channel(d_[5:])):
+                        back.append(c_)
+    rep.floor("R11.1", "handlers for a dead peer in close()", n_h, 1)
+    rep.ob("R11.1", "close(): the handler for a peer that is already gone does not use the transport again", not back,
+           "EOFError during the closing handshake is absorbed" if not back else
+           "`%s` inside the `except EOFError` handler of close() reaches the channel of a transport that has just failed: it raises "
+           "EOFError again, so close() itself raises - a caller closing many connections in a loop (a server shutting down) stops "
+           "at the first dead one and leaves the rest open" % A.src(back[0])[:50], ctx.loc(back[0]) if back else f.loc, kind="site")
+
     # ------------------------------------------------------------------ R11.2 _cleanup
     fc = ctx.func(K.CONN + "._cleanup")
     gc = ctx.cfg(fc, raises="default")
